@@ -203,7 +203,7 @@ C02_State(s) ==
 \*          (C13 does not speak about those; C12 does)
 \* nacc:    position -> number of accruals since its last claim (index resolution allowance)
 GhostInit == [unb |-> <<>>, red |-> <<>>, stall |-> FALSE, dep |-> <<>>, slashed |-> FALSE, k2 |-> NoCoins, stuck |-> NoCoins,
-              ent |-> <<>>, taint |-> {}, nacc |-> <<>>, prevEnd |-> -1, diverged |-> "", zeroed |-> {}, orphans |-> <<>>, eslack |-> <<>>, k1 |-> NoCoins]
+              ent |-> <<>>, taint |-> {}, nacc |-> <<>>, prevEnd |-> -1, diverged |-> "", zeroed |-> {}, orphans |-> <<>>, eslack |-> <<>>, k1 |-> NoCoins, unbOff |-> FALSE]
 LedgerOfState(s) ==
   LET xs == SortBy(UnbEntries(s), LAMBDA x : <<x[1][1], DelIdx(x[1][2]), x[2]>>)
   IN  [i \in DOMAIN xs |-> [d |-> s.unbQ[xs[i][1]][xs[i][2]].d, v |-> s.unbQ[xs[i][1]][xs[i][2]].v, a |-> s.unbQ[xs[i][1]][xs[i][2]].a,
@@ -218,6 +218,10 @@ IsSlash(rec) == rec.ev = "SlashHook" \/ (rec.ev = "RealSlash" /\ rec.res.burned 
 SlashFraction(rec) == IF rec.ev = "SlashHook" THEN rec.args.f ELSE rec.res.feff
 SlashValid(rec) == IsSlash(rec) /\ IsPos(SlashFraction(rec)) /\ BLe(SlashFraction(rec), ONE)
 
+\* the callback claims rewards for the destination positions of pending redelegations before it touches them: with a short
+\* pool (K1 after a slash under existing indices, K2 rounding) that claim fails, the callback aborts and leaves the rest undone
+HookFundsKF(rec, gh) == IF rec.ev = "SlashHook" /\ ~rec.res.ok /\ rec.res.errc = "funds" THEN (IF gh.slashed THEN "K1" ELSE IF ~IsEmptyMap(gh.k2) THEN "K2" ELSE "") ELSE ""
+KeyBag(sq) == BagOfSeq([i \in DOMAIN sq |-> <<sq[i].d, sq[i].v, sq[i].a, sq[i].due>>])
 SlashLedger(unb, v, f, now) ==
   [i \in DOMAIN unb |-> IF unb[i].v = v /\ unb[i].due >= now THEN [unb[i] EXCEPT !.amt = BSub(@, TruncInt(DMulInt(f, @)))] ELSE unb[i]]
 
@@ -320,7 +324,11 @@ GhostNext(gh, pre, rec, post, conforms) ==
                 [] rec.ev = "EndBlock" -> SelectSeq(gh.unb, LAMBDA x : ~(x.due < pre.now))
                 [] OTHER -> gh.unb
       \* resynchronise on the real queue when it disagrees (reported once by the step predicates)
-      unb2 == IF BagOfSeq(unb1) = UnbBagOfState(post) THEN unb1 ELSE LedgerOfState(post)
+      \* ... except when a slash left amounts unreduced (same entries, other amounts, and no listed finding aborted the callback):
+      \* the ledger keeps what is owed - a minus the slashes - so that the payout is judged against it (C02)
+      keepOwed == SlashValid(rec) /\ ValExists(pre, e.v) /\ HookFundsKF(rec, gh) = "" /\ KeyBag(unb1) = KeyBag(LedgerOfState(post))
+      unb2 == IF BagOfSeq(unb1) = UnbBagOfState(post) THEN unb1 ELSE IF keepOwed \/ (gh.unbOff /\ KeyBag(unb1) = KeyBag(LedgerOfState(post))) THEN unb1 ELSE LedgerOfState(post)
+      unbOff2 == BagOfSeq(unb2) # UnbBagOfState(post)
       red1 == CASE rec.ev = "Redelegate" /\ rec.res.ok ->
                      Append(gh.red, [d |-> e.d, a |-> e.a, src |-> e.src, dst |-> e.dst, amt |-> e.x, due |-> pre.now + pre.env.unbonding])
                 [] rec.ev = "EndBlock" -> SelectSeq(gh.red, LAMBDA x : ~(x.due < pre.now))
@@ -390,6 +398,7 @@ GhostNext(gh, pre, rec, post, conforms) ==
        orphans |-> OrphansOf(gh, pre, post),
        eslack |-> EslackNext(gh, pre, rec, post),
        k1 |-> CoinsAdd(gh.k1, k1add),
+       unbOff |-> unbOff2,
        \* lock-step (C18): once the re-imported sibling has diverged through a merged redelegation record (K4) it stays diverged
        diverged |-> IF rec.ev = "ForkImport" THEN ""
                     ELSE IF Len(rec.mirror) = 1 /\ MergedAny(gh.red) /\ ObsView(NormState(rec.mirror[1].post)) # ObsView(post) THEN "K4"
@@ -419,17 +428,16 @@ C02_Step(pre, rec, post, gh) ==
         IN  UNION {Check("C02", UserDelta(pre, post, d, a) = payout(d, a),
                          "end-of-block at " \o ToString(pre.now) \o " paid " \o UserDelta(pre, post, d, a) \o " " \o a \o " to " \o d \o
                          " but the matured unbondings amount to " \o payout(d, a)) : d \in AllUsers(pre, post), a \in AllDenomsOf(pre, post)}
-            \cup Check("C02", BagOfSeq(keep) = UnbBagOfState(post), "after end-of-block the unbonding queue differs from the entries that have not matured")
+            \cup Check("C02", IF gh.unbOff THEN KeyBag(keep) = KeyBag(LedgerOfState(post)) ELSE BagOfSeq(keep) = UnbBagOfState(post),
+                       "after end-of-block the unbonding queue differs from the entries that have not matured")
       ELSE IF rec.ev = "Undelegate" /\ rec.res.ok THEN
-        Check("C02", BagOfSeq(Append(gh.unb, [d |-> e.d, v |-> e.v, a |-> e.a, amt |-> e.x, due |-> pre.now + pre.env.unbonding])) = UnbBagOfState(post),
+        Check("C02", LET nw == Append(gh.unb, [d |-> e.d, v |-> e.v, a |-> e.a, amt |-> e.x, due |-> pre.now + pre.env.unbonding])
+                     IN  IF gh.unbOff THEN KeyBag(nw) = KeyBag(LedgerOfState(post)) ELSE BagOfSeq(nw) = UnbBagOfState(post),
               "undelegation of " \o e.x \o " " \o e.a \o " did not produce exactly one pending entry of that amount due at t + unbonding period")
         \cup Check("C02", PaidOnlyRewards(pre, post, e.a), "undelegation paid out staked coins immediately")
       ELSE IF IsSlash(rec) \/ rec.ev = "StakingEndBlock" THEN {}
-      ELSE Check("C02", BagOfSeq(gh.unb) = UnbBagOfState(post), "pending unbonding entries changed by " \o rec.ev)
+      ELSE Check("C02", IF gh.unbOff THEN KeyBag(gh.unb) = KeyBag(LedgerOfState(post)) ELSE BagOfSeq(gh.unb) = UnbBagOfState(post), "pending unbonding entries changed by " \o rec.ev)
 
-\* the callback claims rewards for the destination positions of pending redelegations before it touches them: with a short
-\* pool (K1 after a slash under existing indices, K2 rounding) that claim fails, the callback aborts and leaves the rest undone
-HookFundsKF(rec, gh) == IF rec.ev = "SlashHook" /\ ~rec.res.ok /\ rec.res.errc = "funds" THEN (IF gh.slashed THEN "K1" ELSE IF ~IsEmptyMap(gh.k2) THEN "K2" ELSE "") ELSE ""
 C07_Unb_Step(pre, rec, post, gh) ==
   IF ~(SlashValid(rec) /\ ValExists(pre, rec.args.v)) THEN {}
   ELSE
@@ -486,7 +494,10 @@ C06_Step(pre, rec, post, gh) ==
               sumPre == RSumSet({k \in ks : k \in DOMAIN pre.dels}, LAMBDA k : PosValueRat(pre, k))
               sumPost == RSumSet({k \in ks : k \in DOMAIN post.dels}, LAMBDA k : PosValueRat(post, k))
               slack == BAdd("2", BSum(ks, LAMBDA k : TolMax(pre, post, k[2], a, "0")))
-              orphaning == \E t \in targets : t[3] = a /\ (OrphanedOnValidator(post, t[2], a) \/ OrphanedOnValidator(pre, t[2], a))
+              \* (a redelegation destination nobody else is delegated to, or any validator that carries ownerless dust shares of
+              \* the asset: the redistribution of a slash flows to those shares as to everyone else's)
+              orphaning == (\E t \in targets : t[3] = a /\ (OrphanedOnValidator(post, t[2], a) \/ OrphanedOnValidator(pre, t[2], a)))
+                           \/ \E w \in DOMAIN post.vals : OrphanedOnValidator(post, w, a)
           IN  IF OrphanedTotal(pre, a) \/ OrphanedTotal(post, a) \/ a \notin DOMAIN post.assets THEN {}
               ELSE CheckK("C06", RLe(RSub(sumPre, RInt(slack)), sumPost), IF orphaning THEN "K8" ELSE "",
                           "slash of " \o v \o ": the positions of " \o a \o " were worth " \o RFloor(sumPre) \o " before and " \o RFloor(sumPost) \o " after: value was destroyed, not redistributed")
